@@ -225,6 +225,10 @@ pub fn make_reader(src: &str, data: &[u8]) -> Box<dyn Read> {
         b'x' | b'X' => {
             r.chunk = if c == b'x' { 1 } else { 7 };
             r.fault_at = Some(k);
+            // whatever kind the stream's error has, it is an I/O error of the stream — `UnexpectedEof` included,
+            // which is not "end of input"
+            r.fault_kind = [io::ErrorKind::Other, io::ErrorKind::UnexpectedEof, io::ErrorKind::InvalidData, io::ErrorKind::PermissionDenied,
+                            io::ErrorKind::UnexpectedEof, io::ErrorKind::BrokenPipe, io::ErrorKind::InvalidInput][k % 7];
         }
         b'w' => {
             r.chunk = 3;
